@@ -82,6 +82,12 @@ def lin_cases(rep, rnd, tier):
             dtmax = float(np.max(dtarr)) if local else dt
             Qo = f.data[0].copy()
             t_before = f.time
+            if c % 2 == 1 and s > 0:
+                # between two steps the user (or a residual monitor) evaluates the right-hand side ON THE SOLVER, at the current
+                # state and at another one: the next step is the scheme's step all the same (scratch data are not history)
+                solver.calcrhs(f.copy())
+                if c % 4 == 3:
+                    solver.calcrhs(f0.copy())
             solver.step(f, dtarr.copy() if local else dt)
             Qn = f.data[0].copy()
             sch = SCHEMES[cn]
@@ -107,7 +113,8 @@ def lin_cases(rep, rnd, tier):
         if c % 4 == 1 and not local:
             solver2 = getattr(fd.tnum, cn)(m, rhs)
             try:
-                res = solver2.solve(f0.copy(), cfl, [dt, 2 * dt, 3 * dt])
+                mons = {"r": {"type": "residual", "frequency": 1}} if c % 8 == 1 else None       # a residual monitor at every step
+                res = solver2.solve(f0.copy(), cfl, [dt, 2 * dt, 3 * dt], **({"monitors": mons} if mons else {}))
             except Exception as ex:
                 recs.append(dict(kind="raised", what="%s: %s" % (type(ex).__name__, str(ex)[:100]), cls=cn, scheme="solve"))
                 continue
